@@ -9,6 +9,8 @@ import WuffsVerif.Model.WCore.NoRec
   norec <n> (<k> <callee>*k)*n  -> ok | cycle                     (checkNoRecursiveFuncs)
   <type> = base min max  (min / max decimal or _)
   <expr> = c <int> | v <name> <type> | u <op> e | b <op> l r | as <type> e | a <op> <n> e*n
+         | ix <array-name> <len> <elem-type> e
+  <stmt> = assign <lhs> <rhs> | opassign <op> <lhs> <rhs>     (lhs: v … or ix …)
 -/
 open WuffsVerif WuffsVerif.Line WuffsVerif.Interval WuffsVerif.WCore
 
@@ -62,6 +64,11 @@ partial def parseExpr : List String → Option (Expr × List String)
     let (t, rest) ← parseTy rest
     let (e, rest) ← parseExpr rest
     pure (.as t e, rest)
+  | "ix" :: a :: len :: rest => do
+    let len ← len.toNat?
+    let (t, rest) ← parseTy rest
+    let (i, rest) ← parseExpr rest
+    pure (.index a len t i, rest)
   | "a" :: op :: n :: rest => do
     let op ← parseBOp op
     let n ← n.toNat?
@@ -116,6 +123,7 @@ partial def showExpr : Expr → String
   | .assoc op pre l r =>
     let args := chainArgs (.assoc op pre l r)
     "a " ++ showBOp op ++ " " ++ toString args.length ++ " " ++ " ".intercalate (args.map showExpr)
+  | .index a len t i => "ix " ++ a ++ " " ++ toString len ++ " " ++ showTy t ++ " " ++ showExpr i
 
 def parseStmt : List String → Option (Stmt × List String)
   | "assign" :: rest => do
